@@ -101,6 +101,14 @@ pub fn test_bytes(b: &[u8], texts: &[String], trailing: &[u8], full_faults: bool
     let mut w = vec![];
     m.write(&mut w).map_err(|e| format!("write: {e}"))?;
     ensure!(w == b, "write() differs from to_vec()");
+    for chunk in [1usize, 5, 4096] {
+        if chunk > 5 && b.len() <= chunk {
+            continue;
+        }
+        let mut sw = crate::util::ShortWriter { written: vec![], chunk };
+        m.write(&mut sw).map_err(|e| format!("write into a writer accepting {chunk} bytes per call: {e}"))?;
+        ensure!(sw.written == b, "write() into a writer accepting {chunk} bytes per call wrote {} of {} bytes", sw.written.len(), b.len());
+    }
     let mut joined = b.to_vec();
     joined.extend_from_slice(trailing);
     let (m2, rest) = Model::read_slice(&joined).map_err(|e| format!("read_slice: {e}"))?;
@@ -166,11 +174,12 @@ pub fn test_bytes(b: &[u8], texts: &[String], trailing: &[u8], full_faults: bool
     variants.push(text.replace(' ', "_").into_bytes());
     variants.push(text.replace(' ', "").into_bytes());
     for hv in variants {
-        // (a variant that begins with the genuine header is a damaged body, not a foreign header)
-        if hv.starts_with(MODEL_MAGIC) {
+        let x = [hv.as_slice(), &b[MODEL_MAGIC.len()..]].concat();
+        // (input that still begins with the genuine header - the variant itself, or a shorter
+        // variant completed by the first body bytes - is a damaged body, not a foreign header)
+        if x.starts_with(MODEL_MAGIC) {
             continue;
         }
-        let x = [hv.as_slice(), &b[MODEL_MAGIC.len()..]].concat();
         ensure!(Model::read(x.as_slice()).is_err(), "read accepts the header {:?}", String::from_utf8_lossy(&hv));
         ensure!(Model::read_slice(&x).is_err(), "read_slice accepts the header {:?}", String::from_utf8_lossy(&hv));
         HEADERS.fetch_add(2, Ordering::Relaxed);
@@ -255,11 +264,51 @@ fn edge_cases() -> Vec<FileCase> {
         ..ModelSpec::default()
     };
     // a file of a few hundred KiB: thousands of tag models (strided truncation / faults)
-    let big = crate::checks::c14::large_model(&crate::checks::c14::LargeCase { n_tag_models: 5000, n_char_ngrams: 300, n_words: 40, n_long_words: 0 }).spec;
-    [empty, dict_only, wide, big]
+    let big = crate::checks::c14::large_model(&crate::checks::c14::LargeCase { n_tag_models: 5000, n_char_ngrams: 300, n_words: 40, n_long_words: 0, long_text: 0 }).spec;
+    let mut cases: Vec<FileCase> = [empty, dict_only, wide, big]
         .into_iter()
         .map(|spec| FileCase { spec, texts: texts.clone(), trailing: vec![1, 2, 3] })
-        .collect()
+        .collect();
+    // single strings around buffer-size thresholds (a comment, a dictionary word, an n-gram, a
+    // tag-model token and a tag name of `size` bytes each)
+    for size in [255usize, 256, 4095, 4096, 4097, 8192, 16384, 65535, 65536, 70000] {
+        use vcommon::mirror::{TagModelSpec, TagNgramSpec, TagWeightSpec};
+        let ascii = |c: char, n: usize| -> String { std::iter::repeat(c).take(n).collect() };
+        let word: String = (0..size / 3).map(|i| ['火', '星', '猫', '東'][i % 4]).collect::<String>() + &ascii('w', size % 3);
+        let ngram = ascii('x', size - 1) + "y";
+        let token = ascii('t', size);
+        let spec = ModelSpec {
+            char_window: 2,
+            type_window: 1,
+            bias: 3,
+            char_ngrams: vec![
+                NgramSpec { ngram: ngram.clone(), weights: vec![4, -9] },
+                NgramSpec { ngram: "y".into(), weights: vec![1, 2, 3, 4] },
+            ],
+            type_ngrams: vec![NgramSpec { ngram: vec![2], weights: vec![-2, 1] }],
+            dict: vec![
+                WordSpec { word: word.clone(), weights: vec![7, -8, 9], comment: ascii('c', size) },
+                WordSpec { word: "星".into(), weights: vec![1, 1], comment: String::new() },
+            ],
+            tag_models: vec![TagModelSpec {
+                token: token.clone(),
+                tags: vec![vec![ascii('A', size), "B".into()]],
+                char_ngrams: vec![TagNgramSpec {
+                    ngram: "tt".into(),
+                    weights: vec![TagWeightSpec { rel_position: 0, weights: vec![1, 5] }],
+                }],
+                type_ngrams: vec![],
+                bias: vec![2, 1],
+            }],
+            ..ModelSpec::default()
+        };
+        cases.push(FileCase {
+            spec,
+            texts: vec![format!("a{word}b"), format!("{ngram}{ngram}"), format!("火{token}星")],
+            trailing: vec![7; 5],
+        });
+    }
+    cases
 }
 
 fn case_strategy() -> impl Strategy<Value = FileCase> {
@@ -296,7 +345,8 @@ header and fault enumeration (every position)",
     rep.run_enum(
         "edge-files",
         "hand-picked edge files: the empty model, a dictionary-only model, a model with window \
-255 (n-gram weight vectors of ~500 entries, file > 1 KiB)",
+255 (n-gram weight vectors of ~500 entries, file > 1 KiB), 5,000 tag models, and models whose \
+single strings (comment, word, n-gram, token, tag name) have 255 .. 70,000 bytes",
         false,
         edge_cases().into_iter(),
         test_case,
